@@ -143,6 +143,31 @@ def order_probes(ck):
             ck.fail(["C18", "outline", "def-named-like-something-in-scope"], "the outline of %r is %s" % (t[:80], got), {"files": {"/main.td": t}, "root": "/main.td", "detail": {"probe": "named-like"}},
                     json.dumps(got)[:300], json.dumps(want))
     ck.count("named_like_probes", len(named), {t for t, _ in named}, sample={"text": named[0][0]})
+    # folds and preprocessor directives: a directive is trivia, so a fold ends at the statement's last token that is not one,
+    # whatever conditional is opened inside the statement and closed behind it (expected: (first token, last token) by text)
+    pp = [
+        ("let x = 1 in\n#ifdef A\ndef X;\n#else\ndef Y;\n#endif\nclass C;", [("let x", "def Y;")]),
+        ("#define A\nlet x = 1 in\n#ifdef A\ndef X;\n#else\ndef Y;\n#endif\nclass C;", [("let x", "def X;")]),
+        ("foreach i = [1, 2] in {\n  let x = i in\n#ifndef A\n  def X#i; // last\n#endif // A\n}", [("foreach i", "\n}"), ("let x", "def X#i;")]),
+        ("let x = 1 in {\n#ifndef A\n def X;\n}\n#endif\ndef Z;", [("let x", "def X;\n}")]),
+        ("#ifndef A\nlet x = 1 in def X;\n#endif\ndef Z;", [("let x", "def X;")]),
+        ("foreach i = [1] in\n#ifdef A\ndef X;\n#else\ndef Y;\n#endif\nclass C { int f;\n#ifdef A\nint g;\n#endif\n}\n#ifdef B\n#endif", [("foreach i", "def Y;"), ("class C", "\n}")]),
+        ("if 1 then\n#ifndef A\n def X;\n#endif\nelse\n#ifdef A\n def Y;\n#else\n def Z;\n#endif\ndef W;", [("if 1", "def Z;")]),
+    ]
+    pouts = core.impl(["ws " + json.dumps({"files": {"/main.td": t}, "root": "/main.td", "queries": [["folding_range", "/main.td"]]}) for t, _ in pp], tag="pp18")
+    for (t, want), o in zip(pp, pouts):
+        try:
+            got = sorted(tuple(x[:2]) for x in (json.loads(o)[0] or []))
+        except Exception:
+            continue
+        b = t.encode()
+        exp = sorted((b.index(a.encode()), b.index(z.encode()) + len(z.encode())) for a, z in want)
+        # only the folds of the multi-token statements named above are compared (one-token defs fold too)
+        missing = [e for e in exp if e not in got]
+        if missing:
+            ck.fail(["C18", "folding", "directive-behind-a-statement"], "folding ranges %s of %r lack %s: a fold ends at the statement's last token that is not trivia" % (got, t[:60], missing),
+                    {"files": {"/main.td": t}, "root": "/main.td", "detail": {"probe": "directive-behind"}}, json.dumps(got)[:300], json.dumps(exp))
+    ck.count("directive_fold_probes", len(pp), {t for t, _ in pp}, sample={"text": pp[0][0]})
 
 
 def replay(ck, path):
